@@ -551,7 +551,7 @@ func runCounts(r *Rng, tier string, single, multi keyStore) {
 			level, tag = 1, "ar"+Itoa(v.ar)
 		case v.ar <= 6 && (v.an == 0 || v.ns == 0) && (v.an+v.ns == 255 || v.an+v.ns == 256):
 			level, tag = 1, "an"+Itoa(v.an)+"ns"+Itoa(v.ns)
-		case thorough && v.total() < 1100 && r.Intn(3) == 0:
+		case thorough && v.total() < 700 && r.Intn(3) == 0:
 			level, tag = 1+r.Intn(2), "t"+Itoa(i)
 		}
 		if done[tag] {
